@@ -20,6 +20,16 @@ Proof.
   - rewrite take_app_le by lia. reflexivity.
   - apply elem_of_seq. rewrite app_length. cbn. lia.
 Qed.
+Lemma prefixes_cases (w q : path) : w <> [] -> q ∈ prefixes w -> q ∈ prefixes (removelast w) \/ q = w.
+Proof.
+  intros Hw Hin. destruct (path_cases w) as [->|(q' & m & ->)]; [congruence|]. rewrite removelast_last.
+  unfold prefixes in *. apply elem_of_list_fmap in Hin as (k & -> & Hk). apply elem_of_seq in Hk.
+  rewrite app_length in Hk. cbn in Hk.
+  destruct (decide (k = length q' + 1)) as [->|Hne].
+  - right. rewrite firstn_all2 by (rewrite app_length; cbn; lia). reflexivity.
+  - left. apply elem_of_list_fmap. exists k. split; [rewrite take_app_le by lia; reflexivity|]. apply elem_of_seq. lia.
+Qed.
+
 Lemma not_prefix_of_parent (w : path) : w <> [] -> w ∉ prefixes (removelast w).
 Proof.
   intros Hw Hin. destruct (path_cases w) as [->|(q' & m & ->)]; [congruence|]. rewrite removelast_last in Hin.
@@ -392,6 +402,42 @@ Section Life.
     rewrite Hrun. f_equal. f_equal. apply elem_of_nil_inv. intros c Hc. apply Hl in Hc as [[[_ [x Hx]]|[_ Hc]] Hm].
     - rewrite Hup in Hx. discriminate.
     - apply Hlow in Hc as [y Hy]. rewrite Hm in Hy. discriminate.
+  Qed.
+
+  (** ** removing a file that both layers have: the upper copy goes AND the marker is set - otherwise the
+      lower copy would show through *)
+  Theorem remove_shadowing_file_sets_marker (s0 s1 : mstate) hs (p : path) g :
+    wf s0 -> p <> [] ->
+    s0 !! whiteout_path top p = None ->
+    s0 !! p = Some g -> f_type g = File ->
+    whiteout_path top p <> p ->
+    Forall (not_file s0) (prefixes (removelast (whiteout_path top p))) ->
+    p ∉ prefixes (removelast (whiteout_path top p)) ->
+    exists s0',
+      run bhandler (ovl_impl top lower (CRemoveFile p)) (S2 s0 s1 hs) = (S2 s0' s1 (hs ++ [HClosed]), Ok tt) /\
+      s0' !! p = None /\ is_Some (s0' !! whiteout_path top p) /\
+      (forall q, q <> p -> q ∉ prefixes (whiteout_path top p) -> s0' !! q = s0 !! q) /\
+      wf s0'.
+  Proof.
+    intros Hwf Hp Hwo Hup Hg Hne Hfree Hnotin.
+    cbn [ovl_impl]. unfold bind_res at 1. rewrite run_bind, (read_path_rule hs lg ft s0 s1 p Hp).
+    rewrite bool_decide_eq_true_2 by eauto.
+    unfold write_path. cbn [fst snd app]. unfold bind_res at 1. rewrite run_bind, exists0, Hup.
+    rewrite bool_decide_eq_true_2 by eauto.
+    unfold bind_res at 1. rewrite run_bind, (remove_file0 s0 s1 hs p g Hup Hg).
+    assert (Hwf' : wf (delete p s0)).
+    { destruct Hwf as [Hr Hpc]. split.
+      - apply root_dir_delete; [eapply not_root_of_file; eauto|auto].
+      - apply pc_delete; auto. eapply file_is_leaf; eauto. }
+    assert (Hwo' : delete p s0 !! whiteout_path top p = None) by (rewrite lookup_delete_ne by congruence; exact Hwo).
+    assert (Hfree' : Forall (not_file (delete p s0)) (prefixes (removelast (whiteout_path top p)))).
+    { eapply Forall_impl; [exact Hfree|]. intros q Hq f Hf. apply lookup_delete_Some in Hf as [_ Hf]. eauto. }
+    destruct (set_whiteout0 (delete p s0) s1 hs p Hwf' Hwo' Hfree') as (s0' & Hrun & Hm & Hsame & Hwf'').
+    rewrite Hrun. exists s0'. split; [reflexivity|]. split; [|split; [exact Hm|split; [|exact Hwf'']]].
+    - rewrite Hsame; [apply lookup_delete|]. intros Hin.
+      apply prefixes_cases in Hin as [Hin|Hin]; [exact (Hnotin Hin)|congruence|].
+      unfold whiteout_path. destruct (reverse p); discriminate.
+    - intros q Hqp Hq. rewrite (Hsame q Hq). apply lookup_delete_ne. congruence.
   Qed.
 
   (** ** creating a top-level entry that no layer has: it appears in the write layer, nothing else changes *)
